@@ -208,6 +208,69 @@ func scenario(c cfg) sched.Spec {
 	return sched.Spec{Sc: sc, Quick: 2, Thorough: 3}
 }
 
+// saturate: limit+1 functions that each stay inside until `limit` of them are inside together (a
+// gate that opens, for good, when the count reaches the limit). With the right limit the gate opens
+// and everything finishes; a limiter that admits more lets limit+1 in with a single preemption; one
+// that admits fewer never opens the gate (deadlock). Reaches the bound in both directions at small
+// preemption bounds, also for the default limit.
+func saturate(limit int) sched.Spec {
+	eff := limit
+	if eff < 1 {
+		eff = 3
+	}
+	type stS struct {
+		inside, gate int64
+		done         []int64
+	}
+	sc := sched.Scenario{
+		Name:   fmt.Sprintf("limit%d/saturate", limit),
+		NoRace: true,
+		Build: func(x *core.Exec) any {
+			st := &stS{done: make([]int64, eff+1)}
+			l := goz.NewLimiter(limit)
+			x.Spawn("main", func(t *core.Thread) {
+				for i := 0; i <= eff; i++ {
+					i := i
+					t.Op("Go", i, func() any {
+						l.Go(func() {
+							n := vatomic.AddInt64(&st.inside, 1)
+							if n > int64(eff) {
+								x.FailNow("limit-exceeded", fmt.Sprintf("%d submitted functions are inside their body at the same time, limit %d", n, eff))
+							}
+							if n == int64(eff) {
+								vatomic.StoreInt64(&st.gate, 1)
+							}
+							core.WaitFor(func() bool { return st.gate == 1 }) // evaluated by the scheduler: a plain read (the store is a shim event)
+							vatomic.AddInt64(&st.inside, -1)
+							vatomic.AddInt64(&st.done[i], 1)
+						})
+						return nil
+					})
+					if x.Failed() {
+						return
+					}
+				}
+				t.Op("Wait", 0, func() any { l.Wait(); return nil })
+			})
+			return st
+		},
+		Check: func(x *core.Exec, ctx any) *core.Failure {
+			for i, d := range ctx.(*stS).done {
+				if d != 1 {
+					return &core.Failure{Sig: "task-not-run-exactly-once", What: fmt.Sprintf("function %d ran %d times", i, d)}
+				}
+			}
+			return nil
+		},
+	}
+	// one switch away from a function that could go on suffices to get limit+1 inside a too generous limiter
+	sp := sched.Spec{Sc: sc, Quick: 1, Thorough: 2}
+	if limit == 4 || limit == -1 {
+		sp.ThoroughOnly = true
+	}
+	return sp
+}
+
 // twoLimiters: A and B are independent objects — functions submitted to one never occupy a slot
 // of, are never waited for by, and never release the other (state shared between limiters).
 func twoLimiters(limit int) sched.Spec {
@@ -464,6 +527,9 @@ func main() {
 		// handler configured after the first Go, replaced after the first Wait
 		add(cfg{limit: limit, tasks: []int{ret, pnc}, batch2: 2, handler: true, late: true}, 2, 3)
 		add(cfg{limit: limit, tasks: []int{pauseRet, pausePnc, pnc}, batch2: 1, handler: true, late: true}, 2, 3)
+	}
+	for _, lim := range []int{1, 2, 3, 4, 0, -1} {
+		specs = append(specs, saturate(lim))
 	}
 	for _, lim := range []int{1, 2} {
 		for _, v := range []string{"nil-task", "weird-panic", "logpanic-0", "logpanic-2"} {
